@@ -1,7 +1,8 @@
 ---------------------------- MODULE ParallelTrace ----------------------------
 (* Trace validation for C23.  A trace is what the real ParallelEtherCat.run / FMMULock did in
    real OS processes under one schedule: per gated call an event
-     [p, a, c,                      who passed which gate; the value randrange handed out
+     [p, a, c, f,                   who passed which gate; the value randrange handed out; whether
+                                    the environment made the call fail
       obs |-> the shared state found afterwards (directory listings, pin target, attachment,
               mailbox lock file, bitmap length and bits, holders of the lockf lock and the mutex),
       st  |-> per participant: ph, inst, eth, win, tab as the process reports them]
@@ -34,20 +35,21 @@ SameSeen(L, s) == /\ L.ph = s.ph /\ L.inst = s.inst /\ L.eth = s.eth /\ L.win = 
 
 TInit == /\ tid \in 1 .. Len(Traces) /\ l = 1 /\ PInit
 
-VNext == /\ l <= Len(T.ev) /\ l' = l + 1 /\ UNCHANGED <<tid, crashes, pre, last>>
+VNext == /\ l <= Len(T.ev) /\ l' = l + 1 /\ UNCHANGED <<tid, crashes, faults, pre, last>>
          /\ LET e == T.ev[l] IN
               /\ sh' = ShOf(e.obs)
               /\ loc' = [p \in Procs |-> Seen(loc[p], e.st[p])]
 VSpec == TInit /\ [][VNext]_tvars
 
-CNext == /\ l <= Len(T.ev) /\ l' = l + 1 /\ UNCHANGED <<tid, crashes, pre, last>>
+CNext == /\ l <= Len(T.ev) /\ l' = l + 1 /\ UNCHANGED <<tid, crashes, faults, pre, last>>
          /\ LET e == T.ev[l] IN
               /\ loc[e.p].pc \notin Final
               /\ \/ /\ e.a = "crash"
                     /\ LET r == CrashEff(e.p) IN sh' = r.s /\ loc' = [loc EXCEPT ![e.p] = r.l]
                  \/ /\ e.a # "crash" /\ Gate(loc[e.p].pc) = e.a
                     /\ CanStep(e.p) /\ e.c \in ChoiceSet(e.p)
-                    /\ LET r == Eff(e.p, e.c) IN sh' = r.s /\ loc' = [loc EXCEPT ![e.p] = r.l]
+                    /\ (e.f => loc[e.p].pc \in Faultable)
+                    /\ LET r == Eff(e.p, e.c, e.f) IN sh' = r.s /\ loc' = [loc EXCEPT ![e.p] = r.l]
               /\ sh' = ShOf(e.obs)
               /\ \A p \in Procs : SameSeen(loc'[p], e.st[p])
 CSpec == TInit /\ [][CNext]_tvars
